@@ -524,3 +524,36 @@ Proof.
     + cbn [forallb]. now rewrite Hi, IH.
     + now apply IH.
 Qed.
+
+(* ------------------------------------------------------------ degenerate table files: no record at all *)
+Lemma lines_keep_nolf l : contains 10 l = false -> lines_keep l = match l with [] => [] | _ => [l] end.
+Proof.
+  induction l as [|c l IH]; intros H; [reflexivity|].
+  rewrite contains_cons in H. apply orb_false_iff in H as [Hc Hl].
+  cbn [lines_keep]. rewrite Z.eqb_sym, Hc. rewrite IH by exact Hl. now destruct l.
+Qed.
+Lemma tl_lines_deg d hdr : contains 10 hdr = false -> tl (lines_keep (k_deg_file d hdr)) = [].
+Proof.
+  intros H. destruct d; cbn [k_deg_file]; try reflexivity.
+  rewrite lines_keep_nolf by exact H. now destruct hdr.
+Qed.
+
+(* an existing but empty / header-only-without-newline / newline-only table file: no rows, no error *)
+Lemma process_inet_degenerate le o d hdr is6 fam ty lk filt :
+  text_safe hdr = true -> contains 10 hdr = false ->
+  process_inet le o (Some (k_deg_file d hdr)) is6 fam ty lk filt = Val [].
+Proof.
+  intros Hs Hh. unfold process_inet. cbv zeta.
+  assert (E : univ_nl (k_deg_file d hdr) = k_deg_file d hdr /\ str_safe (k_deg_file d hdr) = true).
+  { apply text_safe_parts in Hs as [Hcr Hss]. destruct d; cbn [k_deg_file]; try (split; reflexivity).
+    split; [now apply univ_nl_id|exact Hss]. }
+  destruct E as [E1 E2]. rewrite E1, E2, tl_lines_deg by exact Hh. reflexivity.
+Qed.
+Lemma process_unix_degenerate v d fam lk filt :
+  process_unix v (Some (k_deg_file d hdr_unix)) fam lk filt = Val [].
+Proof.
+  unfold process_unix. cbv zeta.
+  assert (E : (if v_lf v then k_deg_file d hdr_unix else univ_nl (k_deg_file d hdr_unix)) = k_deg_file d hdr_unix).
+  { destruct (v_lf v); [reflexivity|]. destruct d; reflexivity. }
+  destruct (v_lf v); [|destruct d; reflexivity]. rewrite tl_lines_deg by reflexivity. reflexivity.
+Qed.
